@@ -95,6 +95,27 @@ func checkC06(r *core.Result) {
 	if ex == nil {
 		return
 	}
+	// U-group: unknown fields are kept through Decoder.Skip; a conforming writer of a newer schema may send a group
+	// (wire types 3 / 4), which a conforming reader skips as one unknown field.
+	if prog, err := core.Load("./"); err == nil {
+		if f := core.FindFunc(prog.Pkg(""), "(*Decoder).Skip"); f != nil {
+			have := map[string]bool{}
+			ast.Inspect(f.Decl.Body, func(n ast.Node) bool {
+				if cc, ok := n.(*ast.CaseClause); ok {
+					for _, e := range cc.List {
+						if tv := prog.Pkg("").TypesInfo.Types[e]; tv.Value != nil {
+							have[tv.Value.ExactString()] = true
+						}
+					}
+				}
+				return true
+			})
+			r.Ob("U-group", "(*Decoder).Skip can skip a group (wire types 3 and 4)", prog.Pos(f.Pos()), have["3"] && have["4"],
+				"Skip has no arm for the group wire types: a valid message that carries an unknown group field (e.g. 10 07 93 03 08 05 94 03) is rejected by the generated Unmarshal (\"unsupported wire type\") while the reference runtime keeps it as an unknown field")
+		} else {
+			r.Fail("anchor", "(*Decoder).Skip", "", "function not found")
+		}
+	}
 	nArms := 0
 	for _, u := range ex.Units {
 		if u.Pkg == nil || len(u.TypeErrors) > 0 {
